@@ -31,7 +31,12 @@ import (
 	"github.com/nuts-foundation/nuts-node/storage"
 	"net/http"
 	"net/url"
+	"time"
 )
+
+// dpopProofMaxAge defines for how long after its creation (iat) a DPoP proof is accepted by ValidateDPoPProof.
+// It must be shorter than the retention of used jti's (accessTokenValidity); the difference is a margin for stores with a coarse TTL resolution.
+const dpopProofMaxAge = accessTokenValidity - time.Minute
 
 func (r Wrapper) CreateDPoPProof(ctx context.Context, request CreateDPoPProofRequestObject) (CreateDPoPProofResponseObject, error) {
 	// check method and url
@@ -84,6 +89,12 @@ func (r Wrapper) ValidateDPoPProof(_ context.Context, request ValidateDPoPProofR
 	hash := nutsHash.SHA256Sum([]byte(request.Body.Token))
 	if ath != base64.RawURLEncoding.EncodeToString(hash.Slice()) {
 		reason := "ath/token claim mismatch"
+		return ValidateDPoPProof200JSONResponse{Reason: &reason}, nil
+	}
+	// A used jti is remembered for accessTokenValidity (see useNonceOnceStore), so a proof must not be accepted for longer than that after its creation:
+	// otherwise it could be replayed once the record of its jti has expired.
+	if time.Since(dpopToken.Token.IssuedAt()) > dpopProofMaxAge {
+		reason := "proof is too old"
 		return ValidateDPoPProof200JSONResponse{Reason: &reason}, nil
 	}
 	// check if the jti is already used, if not add it to the store for the duration of the access token lifetime
